@@ -76,6 +76,121 @@ def monitor(case: Case, out: list[str]):
     return None
 
 
+# ------------------------------------------------------------------------------------------ two callers per method
+# `acquire` and `release` are exclusive methods: of two transactions calling one of them in the same cycle at most
+# one may execute (a method accidentally declared nonexclusive lets both through while the counter moves by one -
+# invisible to a single caller).  `clear` is legitimately nonexclusive.
+_msims: dict[int, CompSim] = {}
+
+
+def _msim(maxc: int) -> CompSim:
+    if maxc not in _msims:
+        from amaranth import Elaboratable
+        from transactron import TModule
+        from transactron.lib.fifo import Semaphore
+
+        class TwoCallers(Elaboratable):
+            def __init__(self):
+                self.inner = inner = Semaphore(maxc)
+                self.acquire = [inner.acquire] * 2
+                self.release = [inner.release] * 2
+                self.clear = inner.clear
+
+            def elaborate(self, platform):
+                m = TModule()
+                m.submodules.inner = self.inner
+                return m
+
+        sim = CompSim(TwoCallers)
+        # static order of the two callers, read off the real scheduler: everybody attempts while the method is ready
+        tr = sim.run([{"acquire[0]": 0, "acquire[1]": 0}, {"release[0]": 0, "release[1]": 0}])
+        sim.ao = 1 if (tr[0][("acquire", 1)] is not None and tr[0][("acquire", 0)] is None) else 0
+        sim.ro = 1 if (tr[1][("release", 1)] is not None and tr[1][("release", 0)] is None) else 0
+        _msims[maxc] = sim
+    return _msims[maxc]
+
+
+def _mparse(op: str) -> dict:
+    t = dict(x.split("=") for x in op.split()[1:])
+    return {"a": [int(v) for v in t["a"].split("/")], "r": [int(v) for v in t["r"].split("/")], "c": int(t["c"])}
+
+
+def impl_multi(case: Case) -> list[str]:
+    sim = _msim(case.desc["max"])
+    ops = []
+    for line in case.ops:
+        o = _mparse(line)
+        op = {"clear": 0 if o["c"] else None}
+        for k in (0, 1):
+            op[f"acquire[{k}]"] = 0 if o["a"][k] else None
+            op[f"release[{k}]"] = 0 if o["r"][k] else None
+        ops.append(op)
+    tr = sim.run(ops, extra=lambda d: [d.inner.acquire_ready, d.inner.release_ready, d.inner.count])
+    out = ["ok"]
+    for r in tr:
+        b = lambda p, k: 0 if r[(p, k)] is None else 1  # noqa: E731
+        e = r["_extra"]
+        out.append(f"a={b('acquire', 0)}/{b('acquire', 1)} r={b('release', 0)}/{b('release', 1)} "
+                   f"c={0 if r[('clear',)] is None else 1} rdy={e[0]}{e[1]} cnt={e[2]}")
+    return out
+
+
+def monitor_multi(case: Case, out: list[str]):
+    """at most one caller of an exclusive method executes per cycle; the property sentence on the union of the
+    executed calls: count = executed acquisitions - executed releases since the last clear"""
+    maxc = case.desc["max"]
+    acq = rel = 0
+    for k, (op, o) in enumerate(zip(case.ops, out[1:])):
+        i = _mparse(op)
+        f = dict(x.split("=") for x in o.split())
+        fa = [int(v) for v in f["a"].split("/")]
+        fr = [int(v) for v in f["r"].split("/")]
+        cnt = int(f["cnt"])
+        if cnt != acq - rel:
+            return f"cycle {k}: count={cnt} but executed acquisitions-releases since last clear = {acq}-{rel}"
+        if sum(fa) > 1:
+            return f"cycle {k}: both callers of the exclusive method acquire executed in the same cycle"
+        if sum(fr) > 1:
+            return f"cycle {k}: both callers of the exclusive method release executed in the same cycle"
+        if any(x and not y for x, y in zip(fa, i["a"])) or any(x and not y for x, y in zip(fr, i["r"])):
+            return f"cycle {k}: a call executed for a caller that did not attempt it"
+        if bool(sum(fa)) != (any(i["a"]) and cnt < maxc):
+            return f"cycle {k}: acquire attempted={i['a']} executed={fa} with count={cnt} max={maxc}"
+        if bool(sum(fr)) != (any(i["r"]) and cnt > 0):
+            return f"cycle {k}: release attempted={i['r']} executed={fr} with count={cnt}"
+        if (f["c"] == "1") != (i["c"] == 1):
+            return f"cycle {k}: clear attempted={i['c']} executed={f['c']}"
+        if f["rdy"] != f"{int(cnt < maxc)}{int(cnt > 0)}":
+            return f"cycle {k}: ready bits {f['rdy']} with count={cnt} max={maxc}"
+        if f["c"] == "1":
+            acq = rel = 0
+        else:
+            acq += sum(fa)
+            rel += sum(fr)
+    return None
+
+
+def _mk_multi(maxc: int, n: int, rng, pa: float, pr: float, pc: float) -> Case:
+    sim = _msim(maxc)
+    b = lambda p: int(rng.random() < p)  # noqa: E731
+    ops = [f"mcyc a={b(pa)}/{b(pa)} r={b(pr)}/{b(pr)} c={b(pc)}" for _ in range(n)]
+    return Case(f"cfg max={maxc} ao={sim.ao} ro={sim.ro}", ops, {"component": "Semaphore", "max": maxc, "callers": 2}, "two-callers")
+
+
+def gen_multi(ctx: Check) -> list[Case]:
+    rng = ctx.rng("multi")
+    out = []
+    for m in ctx.pick([1, 2, 3, 5], [1, 2, 3, 4, 5, 7, 8, 16]):
+        for pa, pr, pc in [(0.8, 0.3, 0.02), (0.5, 0.5, 0.05), (1.0, 1.0, 0.0), (0.3, 0.8, 0.02)]:
+            out.append(_mk_multi(m, ctx.pick(100, 600), rng, pa, pr, pc))
+    return out
+
+
+def more_multi(case: Case, rng):
+    for _ in range(10):
+        yield _mk_multi(case.desc["max"], 200, rng, 0.7, 0.5, 0.03)
+
+
 def _mk(maxc: int, ops: list[tuple[int, int, int]], tag: str) -> Case:
     return Case(f"cfg max={maxc}", [f"cyc a={a} r={r} c={c}" for a, r, c in ops], {"component": "Semaphore", "max": maxc}, tag)
 
@@ -117,8 +232,19 @@ def run(ctx: Check):
 
     lockstep(ctx, "semaphore", "C20", gen_cases(ctx), impl, monitor, more_cases, nontrivial, procs=1)
 
+    def nontrivial_multi(case, out):
+        # both callers of acquire and both callers of release attempted in a cycle where the method was ready
+        ba = any(op.split()[1] == "a=1/1" and " rdy=1" in o for op, o in zip(case.ops, out[1:]))
+        br = any(op.split()[2] == "r=1/1" and o.split(" rdy=")[1][1] == "1" for op, o in zip(case.ops, out[1:]))
+        return ba and br
+
+    # two callers per method (procs=1: the static caller order probed in this process is part of the cfg line)
+    lockstep(ctx, "semaphore-two-callers", "C20", gen_multi(ctx), impl_multi, monitor_multi, more_multi, nontrivial_multi, procs=1)
+
 
 def replay(ctx: Check, body: dict):
     from ..lockstep import replay_case
 
+    if body.get("desc", {}).get("callers") == 2:
+        return replay_case(body, impl_multi, monitor_multi)
     return replay_case(body, impl, monitor)
